@@ -49,14 +49,14 @@ TFileHash == Is("FileHash") /\ FileHash(Ev.path, Ev.h)
 TUInit    == Is("UInit") /\ UInit(Ev.u)
 TUAdd     == Is("UAdd") /\ UAdd(Ev.u, Ev.k, Ev.v)
 TUDestroy == Is("UDestroy") /\ UDestroy(Ev.u)
-TMInit    == Is("MInit") /\ MInit(Ev.m, Ev.merge # 0, Ev.failtok, Ev.dupsort # 0)
+TMInit    == Is("MInit") /\ MInit(Ev.m, Ev.merge # 0, Ev.failtok, Ev.dupsort # 0, Ev.mc)
 TMAdd     == Is("MAdd") /\ MAdd(Ev.m, Ev.src)
 TMDestroy == Is("MDestroy") /\ MDestroy(Ev.m)
 
 TOpen     == Is("Open") /\ Open(Ev.i, Ev.src, Bound(Ev.kind, IF Has("k0") THEN Ev.k0 ELSE <<>>, IF Has("k1") THEN Ev.k1 ELSE <<>>), Ev.null)
 TSeek     == Is("Seek") /\ Intact /\ Seek(Ev.i, Ev.k)
 TNext     == Is("Next") /\ Intact          \* buffers handed out stayed intact until this call
-                        /\ (IF Ev.ok THEN NextHit(Ev.i, Ev.k, Ev.v) ELSE NextMiss(Ev.i))
+                        /\ (IF Ev.ok THEN NextHit(Ev.i, Ev.k, Ev.v, IF Has("calls") THEN Ev.calls ELSE <<>>) ELSE NextMiss(Ev.i))
 TClose    == Is("Close") /\ Intact /\ Close(Ev.i)
 TSrcWrite == Is("SrcWrite") /\ SrcWrite(Ev.src, Ev.w, Ev.ok)
 
